@@ -16,11 +16,9 @@ import BpProofs.OkSound
     * copies are BYTE-FAITHFUL and VALUE-FAITHFUL, for every well-typed reachable message
       (`MsgOk`, the domain of C01, decided by `msgOkB`): `copy_bytes_faithful`,
       `copy_is_original` (the copy is the original value, at every nesting level: same slots,
-      same re-derived oneof selection), `copy_stays_welltyped`, `copy_steps`
-      (lemmas in BpProofs/CopyBytes.lean; the key step is `initCur_eq_cur`: under the oneof
-      invariant `__post_init__` re-derives exactly the stored selection);
-      `copy_needs_selected_set`: the one premise of `MsgOk` this rests on that is not a typing
-      condition (a selected member is not PLACEHOLDER) cannot be dropped;
+      same oneof selection — copied verbatim since the D45 repair), `copy_stays_welltyped`,
+      `copy_steps` (lemmas in BpProofs/CopyBytes.lean; `initCur_eq_cur` there shows that a
+      constructor call re-derives exactly the stored selection under the oneof invariant);
     * pickle = parse ∘ bytes: `pickle_is_wire_roundtrip` (faithfulness is then C01).
   Not expressible in a pure functional model: independence (aliasing) of copies.
 -/
@@ -193,17 +191,15 @@ example : msgOkB OkEx.SEx (deepCopy OkEx.SEx OkEx.mEx) = true := by decide +kern
 /-- the oneof selection of the nested `Node` (member `sub`, index 3) survives the copy -/
 example : (match deepCopy OkEx.SEx OkEx.mid with | .msg _ _ _ _ cur => cur | _ => []) = [some 3] := by decide +kernel
 
-/-- **sharpness**: of the premises of `MsgOk`, "a selected oneof member is not PLACEHOLDER" is the
-    one the re-derivation of the selection needs beyond the oneof invariant of C07.  Without it the
-    statement is false: `Node` with member `a` selected but its slot holding PLACEHOLDER (only
-    reachable by assigning the `PLACEHOLDER` sentinel itself) encodes the selected default
-    (`18 00`), its copy has lost the selection and encodes nothing.  `msgOkB` rejects the value. -/
-theorem copy_needs_selected_set :
+/-- since the D45 repair a copy receives the selection of its original verbatim (it used to be
+    re-derived from which slots are set): even a value outside `MsgOk` whose selected member holds
+    PLACEHOLDER (reachable only by assigning the sentinel itself) is copied faithfully -/
+example :
     let m : Val := .msg 0 [.ph, .none, .ph, .ph, .ph, .ph] false [] [some 2]
     msgOkB OkEx.SEx m = false
     ∧ dumpVal OkEx.SEx m = .ok [0x18, 0x00]
-    ∧ dumpVal OkEx.SEx (deepCopy OkEx.SEx m) = .ok []
-    ∧ dumpVal OkEx.SEx (shallowCopy OkEx.SEx m) = .ok [] := by decide +kernel
+    ∧ dumpVal OkEx.SEx (deepCopy OkEx.SEx m) = .ok [0x18, 0x00]
+    ∧ dumpVal OkEx.SEx (shallowCopy OkEx.SEx m) = .ok [0x18, 0x00] := by decide +kernel
 
 end Bp.C14
 
@@ -211,4 +207,3 @@ end Bp.C14
 #print axioms Bp.C14.copy_is_original
 #print axioms Bp.C14.copy_stays_welltyped
 #print axioms Bp.C14.copy_steps
-#print axioms Bp.C14.copy_needs_selected_set
